@@ -176,3 +176,218 @@ func runC03Scenario(rec *Recorder, r *rand.Rand) {
 	close(done)
 	h.Final()
 }
+
+// TestDriveC16: 2..4 fans that all need analysis, started with relative delays, behind plants of
+// differing settle times. VERIF_PARALLEL=0: runFanInitializationInParallel=false, in REAL time
+// (a goroutine waiting for the initialisation mutex is not durably blocked, so a synctest bubble
+// would never advance its clock). VERIF_PARALLEL=1: option true, in a bubble (overlap expected).
+func TestDriveC16(t *testing.T) {
+	out := os.Getenv("VERIF_OUT")
+	if out == "" {
+		t.Skip("VERIF_OUT not set")
+	}
+	seed := int64(envInt("VERIF_SEED", 1))
+	n := envInt("VERIF_N", 1)
+	parallel := envInt("VERIF_PARALLEL", 0) == 1
+	nfMax := envInt("VERIF_MAXFANS", 2)
+	rec, err := NewRecorder(out)
+	must(err)
+	defer rec.Close()
+	r := rand.New(rand.NewSource(seed))
+	for i := 0; i < n; i++ {
+		sseed := r.Int63()
+		body := func() { runC16Scenario(rec, rand.New(rand.NewSource(sseed)), parallel, nfMax) }
+		if parallel {
+			synctest.Test(t, func(t *testing.T) { body() })
+		} else {
+			body()
+		}
+	}
+}
+
+func runC16Scenario(rec *Recorder, r *rand.Rand, parallel bool, nfMax int) {
+	nf := 2
+	if nfMax > 2 {
+		nf = 2 + r.Intn(nfMax-1)
+	}
+	cfg := RunCfg{Parallel: parallel, FanResponseDelay: 0}
+	ids := []string{"f1", "f2", "f3", "f4"}
+	for k := 0; k < nf; k++ {
+		rf := RunFan{ID: ids[k], CurveErrAt: -1, Rest: [3]string{"ok", "ok", "ok"}}
+		// mostly hwmon fans (sweep + RPM curve measurement), some file fans (sweep only)
+		if r.Intn(4) == 0 {
+			rf.Spec = FanSpec{Kind: "file", HasRpm: r.Intn(2) == 0}
+		} else {
+			rf.Spec = FanSpec{Kind: "hwmon", HasRpm: true, HasMode: r.Intn(3) > 0}
+		}
+		rf.Spec.N = 10
+		rf.Spec.Alg = AlgSpec{T: "direct"}
+		rf.Quant = []int{51, 64, 85}[r.Intn(3)]
+		rf.Theta = r.Intn(60)
+		rf.Pwm0 = r.Intn(256)
+		rf.Mode0 = 2
+		rf.StartDelay = time.Duration(r.Intn(2500)) * time.Millisecond
+		if k == 0 && r.Intn(2) == 0 {
+			rf.StartDelay = 0
+		}
+		cfg.Fans = append(cfg.Fans, rf)
+	}
+	dir := scratchDir("verif.c16.")
+	defer os.RemoveAll(dir)
+	cfg.Dir = dir
+	rec.NextTrace()
+	h := NewRunHarness(rec, cfg)
+	defer h.Close(false)
+	// plants of differing settle times: the reported RPM approaches its target over tau
+	for k, rf := range cfg.Fans {
+		if !rf.Spec.HasRpm {
+			continue
+		}
+		px := rf.ID + "."
+		theta := rf.Theta
+		tau := time.Duration(300+r.Intn(1500)) * time.Millisecond
+		_ = k
+		h.Env.Computed[px+"rpm"] = func(e *Env) int {
+			p := e.Raw(px + "pwm")
+			target := 0
+			if p > theta {
+				target = 500 + 10*p
+			}
+			el := time.Since(h.LastWrite(px + "pwm"))
+			if el >= tau {
+				return target
+			}
+			return int(float64(target) * float64(el) / float64(tau))
+		}
+	}
+	ctx, cancel := context.WithCancel(context.Background())
+	defer cancel()
+	var mu sync.Mutex
+	started := 0
+	h.OnEvent = func(n int, fanId, event string) {
+		if event == "LoopStarted" {
+			mu.Lock()
+			started++
+			all := started == len(cfg.Fans)
+			mu.Unlock()
+			if all {
+				go func() {
+					time.Sleep(300 * time.Millisecond)
+					rec.Emit(Ev{"ev": "Cancel", "why": "all started", "vt": h.vt()})
+					cancel()
+				}()
+			}
+		}
+	}
+	h.Start(ctx, Ev{"scenario": Ev{"c16": true}})
+	h.Wait()
+	h.Final()
+}
+
+// TestDriveC15: histories of start / stop / `fan reset` / `fan init` over one database.
+// Every start is the real controller.Run (in a bubble) of 1..2 fans, stopped shortly after the
+// first regulation cycles; the CLI commands are emulated by their bodies (delete both entries,
+// init: run the initialization sequence).
+func TestDriveC15(t *testing.T) {
+	out := os.Getenv("VERIF_OUT")
+	if out == "" {
+		t.Skip("VERIF_OUT not set")
+	}
+	seed := int64(envInt("VERIF_SEED", 1))
+	n := envInt("VERIF_N", 3)
+	rec, err := NewRecorder(out)
+	must(err)
+	defer rec.Close()
+	r := rand.New(rand.NewSource(seed))
+	for i := 0; i < n; i++ {
+		runC15History(t, rec, rand.New(rand.NewSource(r.Int63())))
+	}
+}
+
+func runC15History(t *testing.T, rec *Recorder, r *rand.Rand) {
+	dir := scratchDir("verif.c15.")
+	defer os.RemoveAll(dir)
+	nf := 1 + r.Intn(2)
+	var fansCfg []RunFan
+	for k := 0; k < nf; k++ {
+		rf := RunFan{ID: []string{"f1", "f2"}[k], CurveErrAt: -1, Rest: [3]string{"ok", "ok", "ok"}, Mode0: 2, Pwm0: r.Intn(256)}
+		switch r.Intn(8) {
+		case 0, 1:
+			rf.Spec = FanSpec{Kind: "file", HasRpm: r.Intn(2) == 0}
+		case 2:
+			if os.Getenv("VERIF_NOCMD") == "" {
+				rf.Spec = FanSpec{Kind: "cmd", HasRpm: r.Intn(2) == 0}
+			} else {
+				rf.Spec = FanSpec{Kind: "file", HasRpm: true}
+			}
+		default:
+			rf.Spec = FanSpec{Kind: "hwmon", HasRpm: true, HasMode: r.Intn(3) > 0}
+		}
+		rf.Spec.N = 10
+		rf.Spec.Alg = AlgSpec{T: "direct"}
+		rf.Spec.NeverStop = r.Intn(2) == 0
+		rf.Quant = []int{32, 51, 64, 85}[r.Intn(4)]
+		rf.Theta = r.Intn(60)
+		if r.Intn(3) == 0 { // pwmMap given in the configuration
+			q := rf.Quant
+			m := map[int]int{}
+			for v := 0; v <= 255; v += q {
+				m[v] = v
+			}
+			m[255] = 255
+			rf.Spec.CfgMap = m
+		}
+		if rf.Spec.Kind == "hwmon" && r.Intn(3) == 0 { // minPwm and maxPwm configured
+			rf.Spec.CfgMin, rf.Spec.CfgMax = ip(20+r.Intn(30)), ip(200+r.Intn(56))
+		}
+		fansCfg = append(fansCfg, rf)
+	}
+	rec.NextTrace()
+	ops := 3 + r.Intn(4)
+	first := true
+	for o := 0; o < ops; o++ {
+		x := r.Intn(10)
+		if first || x < 6 {
+			// start, run until every fan has regulated for a few cycles, stop
+			synctest.Test(t, func(t *testing.T) {
+				cfg := RunCfg{Parallel: true, Dir: dir, Fans: fansCfg}
+				h := NewRunHarness(rec, cfg)
+				defer h.Close(false)
+				ctx, cancel := context.WithCancel(context.Background())
+				defer cancel()
+				var mu sync.Mutex
+				cycles := map[string]int{}
+				h.OnEvent = func(n int, fanId, event string) {
+					if event == "CycleEnd" {
+						mu.Lock()
+						cycles[fanId]++
+						all := len(cycles) == len(cfg.Fans)
+						for _, c := range cycles {
+							if c < 2 {
+								all = false
+							}
+						}
+						mu.Unlock()
+						if all {
+							rec.Emit(Ev{"ev": "Cancel", "why": "regulating"})
+							cancel()
+						}
+					}
+				}
+				h.Start(ctx, Ev{"newTrace": first, "scenario": Ev{"c15": true, "op": o}})
+				h.Wait()
+				h.Final()
+			})
+			first = false
+		} else {
+			// CLI between two runs
+			synctest.Test(t, func(t *testing.T) {
+				cfg := RunCfg{Parallel: true, Dir: dir, Fans: fansCfg}
+				h := NewRunHarness(rec, cfg)
+				defer h.Close(false)
+				id := fansCfg[r.Intn(len(fansCfg))].ID
+				_ = h.Cli(id, x >= 8)
+			})
+		}
+	}
+}
